@@ -485,6 +485,12 @@ def _run(chk, ctx, a):
         broken += bs
     except BrokenTie as e:
         broken.append(Broken("correspondence", type(chk).__name__ + ".correspondence", str(e)))
+    except (Infra, subprocess.TimeoutExpired):
+        raise
+    except Exception:
+        # the harness itself fell over while driving the (possibly edited) implementation: the tie no longer checks;
+        # the failing-input search below decides whether a concrete violation can be shown
+        broken.append(Broken("correspondence", type(chk).__name__ + ".correspondence (harness exception)", traceback.format_exc()))
     # 7 search when something broke and no concrete failure yet
     known0 = load_known_findings()
     unknown = []
@@ -495,8 +501,10 @@ def _run(chk, ctx, a):
     if broken and not unknown:
         try:
             failures += chk.search(ctx, broken)
-        except BrokenTie as e:
-            pass
+        except (Infra, subprocess.TimeoutExpired):
+            raise
+        except Exception:
+            broken.append(Broken("correspondence", type(chk).__name__ + ".search (harness exception)", traceback.format_exc()))
     return finish(chk, ctx, failures, broken, obligations, discharged, axioms)
 
 
